@@ -18,8 +18,8 @@
     record lists closed by a blank line (ROCKS ELEME CONNE …)     untilBlank_roundtrip
     "0..12 default initial conditions" and the look-ahead         untilKeyword_roundtrip, param_default_incons_roundtrip
     "every rock type" (incl. the 7th RP/CP parameter)             section_roundtrip_ROCKS, seven_parameters_kept
-    "simulation parameter"                                        value_line_roundtrip (the three PARAM lines), chunked_roundtrip
-                                                                 (time steps), param_default_incons_roundtrip;
+    "simulation parameter"                                        section_roundtrip_PARAM (both flavours; time steps of a negative
+                                                                 const_timestep; 0..12.. default incons; look-ahead),
                                                                  section_roundtrip_RPCAP, section_roundtrip_dict (LINEQ SOLVR MULTI)
     "output time"                                                 section_roundtrip_TIMES
     "block", "connection"                                         section_roundtrip_ELEME, section_roundtrip_CONNE
@@ -33,8 +33,8 @@
     "from then on every further cycle reproduces them"            write_read_fixpoint
     "both simulator flavours"                                     flavour_param_spec
     tie to the tables and dispatch of /repo                       all_records_wf, dispatch_as_modelled
-  Not proved as theorems (modelled and checked by the correspondence and the oracle only): the composition of the
-  PARAM lines into one PARAM section statement, the round trips of SELEC, DIFFU, INDOM, SHORT, MESHM at section level, the
+  Not proved as theorems (modelled and checked by the correspondence and the oracle only): the round trips of
+  SELEC, DIFFU, INDOM, SHORT, MESHM, MOMOP at section level, the
   composition of all section round trips into `read (write d) = canon d` for whole objects, the binary
   MESHA/MESHB pair, and idempotence of `canonV` on reals (C02's domain).
 -/
@@ -139,6 +139,39 @@ theorem param_default_incons_roundtrip (kws : List Str) (xs : List Val)
          | .ok (m, n, r') => .ok (trimTrailingNones di ++ m, n, r')) =
         Except.ok (xs.map (canonV (fieldAt mainTabs c!"default_incons" 0)), nxt, rest) :=
   default_incons_roundtrip (chunkRec_of mainTabs c!"default_incons" 4 (main_chunks_ok _ (by decide))).2 kws xs hx hw hok
+    tail nxt rest hend
+
+/-- the first PARAM record kind of an object's flavour, in the current main table -/
+abbrev p1rec (d : T2Data) : Rec := recOf mainTabs (if d.autough2 then c!"param1_autough2" else c!"param1")
+
+/-- **section_roundtrip_PARAM** (current main table, both flavours): the PARAM section written by
+    `write_parameters` — two dictionary lines with the 24 MOP digits (`param1` or `param1_autough2` by flavour), the
+    time-step lines of a negative `const_timestep` (lines of eight), the third dictionary line, the default
+    initial conditions (lines of four, or a blank line) — is read back by `read_parameters` as the parameters
+    (entries present under their own names, absent ones untouched), the options, the time steps and the default
+    initial conditions; the keyword line that follows is handed back to `read()`.  `GoodParam` collects the
+    decidable side conditions (MOP digits, `print_block` absent or visible, `const_timestep` announcing the
+    right number of lines, values reading back as values). -/
+theorem section_roundtrip_PARAM (d d0 : T2Data)
+    (hg : GoodParam (p1rec d) (recOf mainTabs c!"param2") (fieldAt mainTabs c!"timestep" 0)
+            (fieldAt mainTabs c!"default_incons" 0) d d0)
+    {lines : List Str} (hw : writeParameters mainTabs d = .ok lines)
+    (hcont : ∀ dil, (if d.defaultIncons.length > 0 then
+                       writeChunks (recOf mainTabs c!"default_incons") 4 d.defaultIncons d.defaultIncons.length
+                         ((d.defaultIncons.length + 3) / 4)
+                     else .ok [nl []]) = .ok dil →
+              ∀ l ∈ dil.drop 1, isBlank (padstring l) = false ∧ paramStops.any (startsWith (padstring l)) = false)
+    (tail : List Str) (nxt : Option Str) (rest : List Str) (hend : KwEnd paramStops tail nxt rest) :
+    ∃ body, lines = nl c!"PARAM" :: body ∧
+      readParameters .default mainTabs d0 (body ++ tail) =
+        .ok ({ d0 with parameter := paramAfter3 (p1rec d) (recOf mainTabs c!"param2") (recOf mainTabs c!"param3") d d0,
+                       option := d.option,
+                       timestep := canonTimesteps (p1rec d) (recOf mainTabs c!"param2") (fieldAt mainTabs c!"timestep" 0) d d0,
+                       defaultIncons := d.defaultIncons.map (canonV (fieldAt mainTabs c!"default_incons" 0)) }, nxt, rest) :=
+  let h := param_recs d
+  let ts := chunkRec_of mainTabs c!"timestep" 8 (main_chunks_ok _ (by decide))
+  let di := chunkRec_of mainTabs c!"default_incons" 4 (main_chunks_ok _ (by decide))
+  Proofs.T2.section_roundtrip_PARAM d d0 h.1 h.2.2.1 h.2.2.2.2.1 ts.1 di.1 h.2.1 h.2.2.2.1 h.2.2.2.2.2 ts.2 di.2 hg hw hcont
     tail nxt rest hend
 
 /-! ### block names -/
@@ -384,6 +417,24 @@ example : GoodRock (fieldAt mainTabs c!"rocks1" 1) exRock2 :=
     rp := fun _ => ⟨exRP, rfl, by decide⟩, cp := fun _ => ⟨exCP, rfl, by decide⟩ }
 example : ∃ ls, writeRock mainTabs exRock2 = .ok ls ∧ ls.length = 4 := by
   refine ⟨(match writeRock mainTabs exRock2 with | .ok l => l | .error _ => []), ?_, ?_⟩ <;> decide +kernel
+-- an object with a negative const_timestep (two lines of time steps: 9 values), five default incons, a print block
+def exParam : T2Data :=
+  { T2Data.empty with
+    parameter := (((T2Data.empty.parameter.set c!"const_timestep" (.real (-2))).set c!"print_block" (.str c!"abc 5")).set
+                    c!"max_timesteps" (.int 999)).set c!"gravity" (.real (981/100)),
+    option := [0, 1, 0, 0, 0, 0, 0, 0, 0, 0, 2, 2, 2, 0, 0, 0, 5, 0, 0, 0, 1, 0, 0, 1, 0],
+    timestep := [.real 1, .real 2, .real 3, .real 4, .real 5, .real 6, .real 7, .real 8, .real 9],
+    defaultIncons := [.real 101325, .real 25, .real (1/2), .real 0, .real 7] }
+example : GoodParam (p1rec exParam) (recOf mainTabs c!"param2") (fieldAt mainTabs c!"timestep" 0)
+    (fieldAt mainTabs c!"default_incons" 0) exParam T2Data.empty :=
+  { flavour := rfl, fresh := rfl, pbW := by decide +kernel,
+    mop := ⟨(match (paramAfter1 (p1rec exParam) exParam T2Data.empty).get c!"_option_str" with | some (.str s) => s | _ => []),
+            by decide +kernel, by decide +kernel⟩,
+    pb := by decide +kernel,
+    ct := ⟨-2, by decide +kernel, by decide +kernel, fun _ => by decide +kernel⟩,
+    tsVals := by decide +kernel, diVals := by decide +kernel }
+example : ∃ ls, writeParameters mainTabs exParam = .ok ls ∧ ls.length = 8 := by
+  refine ⟨(match writeParameters mainTabs exParam with | .ok l => l | .error _ => []), ?_, ?_⟩ <;> decide +kernel
 -- visible history items
 example : Visible c!"abc12" := ⟨rfl, by decide +kernel⟩
 -- a one-section chain for `sections_preserved`: a file `START / ENDCY`
